@@ -433,11 +433,19 @@ func (ex *Exec) havocReachable(st *State, a Val, t types.Type) {
 				c := vc.sorts.anyCtors[key]
 				if pt, ok := c.typ.Underlying().(*types.Pointer); ok {
 					es := vc.sorts.SortOf(pt.Elem())
-					if si, ok := vc.sorts.structs[es]; ok && strings.Contains(a.T.S, "("+c.name+" ") {
-						inner := Term{app(c.sel, a.T.S), SRef}
+					if !strings.Contains(a.T.S, "("+c.name+" ") {
+						continue
+					}
+					inner := Term{app(c.sel, a.T.S), SRef}
+					if si, ok := vc.sorts.structs[es]; ok && !isBigInt(types.Unalias(pt.Elem())) {
 						for _, f := range si.fields {
 							vc.writeField(st, inner, es, f.name, vc.fresh("havoc_"+f.name, f.sort))
 						}
+					} else if c.sort == SRef {
+						// pointer to a non-struct object (a boxed local): its content is overwritten
+						hn, hs := vc.boxHeap(es)
+						h := vc.heapGet(st, hn, hs)
+						vc.heapSet(st, hn, Term{app("store", h.S, inner.S, vc.fresh("havoc_box", es).S), hs})
 					}
 				}
 			}
